@@ -3,7 +3,7 @@
     (Sqlite/ReverseModel.v); the reverse statements of the earlier changes then run on a state that
     is only [sim] to the one they were planned for, which the congruence lemmas below handle. *)
 From Coq Require Import List NArith ZArith Bool Arith Lia Permutation.
-From Atlas Require Import Base.Bytes Diff.Schema Diff.DiffModel Diff.DiffSqlite Diff.DiffProofs
+From Atlas Require Import Base.Bytes Diff.Schema Diff.DiffModel Diff.DiffSqlite Diff.DiffProofs Diff.DiffSqliteProofs
   Lex.DownModel Sqlite.PlanModel Sqlite.EngineModel Sqlite.InspectModel Sqlite.ReverseModel
   Sqlite.ReverseProofs.
 Import ListNotations.
@@ -188,26 +188,22 @@ Qed.
 
 Lemma create_index_intro d n i ct :
   find_ct n (db_tables d) = Some ct ->
-  i_name i <> [] -> reserved_name (i_name i) = false -> name_used (i_name i) (db_tables d) = false ->
-  i_parts i <> [] -> first_err (part_ok_b (ct_t ct)) (i_parts i) = Ok tt ->
+  index_def_ok (ct_t ct) i = Ok tt -> name_used (i_name i) (db_tables d) = false ->
   match i_unique i, i_pred i, part_col_names (i_parts i) with
   | true, None, Some cols => has_dup_on cols (ct_rows ct) = false
   | _, _, _ => True
   end ->
   create_index d n i = Ok (set_tables d (update_ct n (add_idx_in i) (db_tables d))).
 Proof.
-  intros Hf Hn Hr Hu Hp Hok Hd. unfold create_index. rewrite Hf.
-  destruct (i_name i) as [|b nm] eqn:En; [congruence|]. rewrite Hr, Hu.
-  destruct (i_parts i) as [|p ps] eqn:Ep; [congruence|]. rewrite Hok.
-  destruct (i_unique i), (i_pred i), (part_col_names (p :: ps)); try reflexivity.
+  intros Hf Hdef Hu Hd. unfold create_index. rewrite Hf, Hdef, Hu.
+  destruct (i_unique i), (i_pred i), (part_col_names (i_parts i)); try reflexivity.
   rewrite Hd. reflexivity.
 Qed.
 
 Lemma create_index_facts d n i d1 :
   create_index d n i = Ok d1 ->
   exists ct, find_ct n (db_tables d) = Some ct /\
-    i_name i <> [] /\ reserved_name (i_name i) = false /\ name_used (i_name i) (db_tables d) = false /\
-    i_parts i <> [] /\ first_err (part_ok_b (ct_t ct)) (i_parts i) = Ok tt /\
+    index_def_ok (ct_t ct) i = Ok tt /\ name_used (i_name i) (db_tables d) = false /\
     match i_unique i, i_pred i, part_col_names (i_parts i) with
     | true, None, Some cols => has_dup_on cols (ct_rows ct) = false
     | _, _, _ => True
@@ -216,15 +212,12 @@ Lemma create_index_facts d n i d1 :
 Proof.
   unfold create_index. intros H.
   destruct (find_ct n (db_tables d)) as [ct|] eqn:Ef; [|discriminate].
-  destruct (i_name i) as [|b nm] eqn:En; [discriminate|].
-  destruct (reserved_name (b :: nm)) eqn:Er; [discriminate|].
-  destruct (name_used (b :: nm) (db_tables d)) eqn:Eu; [discriminate|].
-  destruct (i_parts i) as [|p ps] eqn:Ep; [discriminate|].
-  destruct (first_err (part_ok_b (ct_t ct)) (p :: ps)) as [[]|] eqn:Eok; [|discriminate].
-  exists ct. repeat split; try assumption; try reflexivity; try discriminate.
-  - destruct (i_unique i), (i_pred i), (part_col_names (p :: ps)); try exact I.
+  destruct (index_def_ok (ct_t ct) i) as [[]|] eqn:Edef; [|discriminate].
+  destruct (name_used (i_name i) (db_tables d)) eqn:Eu; [discriminate|].
+  exists ct. repeat split; try assumption; try reflexivity.
+  - destruct (i_unique i), (i_pred i), (part_col_names (i_parts i)); try exact I.
     destruct (has_dup_on l (ct_rows ct)); [discriminate|reflexivity].
-  - destruct (i_unique i), (i_pred i), (part_col_names (p :: ps)); try (inversion H; reflexivity).
+  - destruct (i_unique i), (i_pred i), (part_col_names (i_parts i)); try (inversion H; reflexivity).
     destruct (has_dup_on l (ct_rows ct)); [discriminate|inversion H; reflexivity].
 Qed.
 
@@ -233,6 +226,12 @@ Proof. unfold part_ok_b. destruct (p_col p); [|reflexivity]. now rewrite has_col
 
 Lemma first_err_ext {A} (f g : A -> result unit) l : (forall a, f a = g a) -> first_err f l = first_err g l.
 Proof. intros H. induction l as [|x l IH]; simpl; [reflexivity|]. rewrite H. destruct (g x); auto. Qed.
+
+Lemma index_def_ok_with c l i : index_def_ok (ct_t (with_idx c l)) i = index_def_ok (ct_t c) i.
+Proof.
+  unfold index_def_ok. destruct (i_name i); [reflexivity|]. destruct (reserved_name _); [reflexivity|].
+  destruct (i_parts i); [reflexivity|]. apply first_err_ext. apply part_ok_b_with.
+Qed.
 
 Lemma add_idx_in_with i c : add_idx_in i c = with_idx c (ct_idx c ++ [i]).
 Proof. reflexivity. Qed.
@@ -248,14 +247,14 @@ Lemma create_index_congr d a n i d' :
   sim d a -> create_index d n i = Ok d' -> exists a', create_index a n i = Ok a' /\ sim d' a'.
 Proof.
   intros (Ef & Et & F) H.
-  destruct (create_index_facts _ _ _ _ H) as (ct & Hf & Hn & Hr & Hu & Hp & Hok & Hd & ->).
+  destruct (create_index_facts _ _ _ _ H) as (ct & Hf & Hdef & Hu & Hd & ->).
   pose proof (find_ct_sim n _ _ F) as Hfa. rewrite Hf in Hfa.
   destruct (find_ct n (db_tables a)) as [ct'|] eqn:Efa; [|contradiction].
   pose proof (ct_sim_inv _ _ Hfa) as Ect.
   exists (set_tables a (update_ct n (add_idx_in i) (db_tables a))). split.
   - apply (create_index_intro a n i ct'); try assumption.
+    + rewrite Ect, index_def_ok_with. exact Hdef.
     + now rewrite <- (name_used_sim _ _ _ F).
-    + rewrite Ect. rewrite (first_err_ext _ _ _ (part_ok_b_with ct (ct_idx ct'))). exact Hok.
     + rewrite Ect, ct_rows_with. exact Hd.
   - repeat split; try assumption. simpl. apply update_ct_sim; [exact F|]. intros; now apply add_idx_in_sim.
 Qed.
@@ -363,11 +362,40 @@ Proof.
   destruct (IH Hy) as (x & Hx & Rx). exists x. split; [now right|exact Rx].
 Qed.
 
+Lemma t_fks_with c l : t_fks (ct_t (with_idx c l)) = t_fks (ct_t c).
+Proof. destruct c as [[t a] u r]; destruct t; reflexivity. Qed.
+
+Lemma existsb_Forall2 {A B} (R : A -> B -> Prop) (g : A -> bool) (g' : B -> bool) l l' :
+  Forall2 R l l' -> (forall c c', R c c' -> g c = g' c') -> existsb g l = existsb g' l'.
+Proof. intros F H. induction F; simpl; [reflexivity|]. now rewrite (H _ _ H0), IHF. Qed.
+
+Lemma existsb_ext' {A} (f g : A -> bool) l : (forall x, f x = g x) -> existsb f l = existsb g l.
+Proof. intros H. induction l as [|x l IH]; simpl; [reflexivity|]. now rewrite H, IH. Qed.
+
+Lemma fk_missing_parent_sim l l' f : Forall2 ct_sim l l' -> fk_missing_parent l f = fk_missing_parent l' f.
+Proof.
+  intros F. unfold fk_missing_parent. pose proof (find_ct_sim (f_reftable f) _ _ F) as H.
+  destruct (find_ct (f_reftable f) l), (find_ct (f_reftable f) l'); try reflexivity; contradiction.
+Qed.
+
+Lemma drop_blocked_sim n l l' : Forall2 ct_sim l l' -> drop_blocked n l = drop_blocked n l'.
+Proof.
+  intros F. unfold drop_blocked. apply (existsb_Forall2 _ _ _ _ _ F). intros c c' S.
+  rewrite (ct_sim_inv _ _ S), t_fks_with.
+  apply existsb_ext'. intros f. f_equal. f_equal; [f_equal|f_equal].
+  - apply existsb_ext'. intros g. now apply fk_missing_parent_sim.
+  - apply existsb_ext'. intros g. f_equal. now apply fk_missing_parent_sim.
+Qed.
+
+Lemma droppable_sim d a n : sim d a -> droppable d n = droppable a n.
+Proof. intros (Ef & _ & F). unfold droppable. now rewrite Ef, (drop_blocked_sim _ _ _ F). Qed.
+
 Lemma create_drop_table_sim d x d1 a1 :
-  create_table d x [] = Ok d1 -> sim d1 a1 ->
+  create_table d x [] = Ok d1 -> droppable d1 (t_name (x_t x)) = true -> sim d1 a1 ->
   exists a, drop_table a1 (t_name (x_t x)) = Ok a /\ sim d a.
 Proof.
-  intros H (Ef & Et & F). destruct (create_table_shape _ _ _ _ H) as (c & -> & Hn & Hr & Hu & _).
+  intros H Hdr S. rewrite (droppable_sim _ _ _ S) in Hdr. destruct S as (Ef & Et & F).
+  destruct (create_table_shape _ _ _ _ H) as (c & -> & Hn & Hr & Hu & _).
   simpl in F, Ef, Et. apply Forall2_app_inv_l' in F as (l1' & c' & Ea & F1 & Sc).
   pose proof (name_used_false _ _ Hu) as Hfree.
   assert (Hl : forall c0, In c0 l1' -> str_eqb (ct_name c0) (t_name (x_t x)) = false).
@@ -378,9 +406,10 @@ Proof.
   assert (Hr' : ct_rows c' = []).
   { rewrite (ct_sim_inv _ _ Sc), ct_rows_with. exact Hr. }
   exists (set_tables a1 l1'). split.
-  - unfold drop_table. rewrite Ea, (find_ct_app_new _ _ _ Hl Hc), Hr'.
+  - unfold drop_table. unfold droppable in Hdr. rewrite Ea in *. rewrite (find_ct_app_new _ _ _ Hl Hc), Hr'.
     destruct (db_fk a1).
-    + now rewrite implicit_delete_nil, (remove_ct_app_new _ _ _ Hl Hc).
+    + simpl in Hdr. apply negb_true_iff in Hdr. rewrite Hdr.
+      now rewrite implicit_delete_nil, (remove_ct_app_new _ _ _ Hl Hc).
     + now rewrite (remove_ct_app_new _ _ _ Hl Hc).
   - repeat split; assumption.
 Qed.
@@ -487,7 +516,7 @@ Lemma drop_create_index d n t i d1 :
     (* what the forward step leaves: the invariants of the exact chain *)
     names_ok d1.
 Proof.
-  intros ND (ct & j & Hf & Hj & Hjn & Hii & Hne & Hres & Hparts & Hok & Hdup) Hin H.
+  intros ND (ct & j & Hf & Hj & Hjn & Hii & Hdef & Hdup) Hin H.
   apply drop_index_shape in H as [_ ->].
   destruct (find_ct_split _ _ _ Hf) as (l1 & l2 & El & Hct & Hl1).
   apply in_split in Hj as (pre & post & Eidx).
@@ -510,11 +539,9 @@ Proof.
   eexists. split; [|split].
   - cbn [db_tables set_tables]. rewrite Etabs.
     refine (create_index_intro (set_tables d (l1 ++ with_idx ct (pre ++ post) :: l2)) t i
-              (with_idx ct (pre ++ post)) Hf1 _ _ _ Hparts _ _); cbn [db_tables set_tables].
-    + now rewrite Hin.
-    + now rewrite Hin.
+              (with_idx ct (pre ++ post)) Hf1 _ _ _); cbn [db_tables set_tables].
+    + rewrite index_def_ok_with. exact Hdef.
     + rewrite Hin. now apply name_used_not_in.
-    + rewrite (first_err_ext _ _ _ (part_ok_b_with ct (pre ++ post))). exact Hok.
     + rewrite ct_rows_with. exact Hdup.
   - cbn [db_tables set_tables]. rewrite (update_ct_split _ _ _ _ _ Hn1 Hl1).
     repeat split; try reflexivity. cbn [db_tables set_tables]. rewrite El.
@@ -561,19 +588,10 @@ Lemma create_table_idx d x us d1 :
   create_table d x us = Ok d1 ->
   exists c, d1 = set_tables d (db_tables d ++ [c]) /\ ct_name c = t_name (x_t x) /\ ct_idx c = [].
 Proof.
-  unfold create_table. intros H.
-  destruct (t_idx (x_t x)); [|discriminate].
+  unfold create_table, new_ctable. intros H.
   destruct (reserved_name (t_name (x_t x))); [discriminate|].
+  destruct (table_checks x us) as [pk|]; [|discriminate].
   destruct (name_used (t_name (x_t x)) (db_tables d)); [discriminate|].
-  destruct (negb (nodup_strs (map c_name (t_cols (x_t x))))); [discriminate|].
-  destruct (negb (existsb (fun c => match c_gen c with None => true | Some _ => false end) (t_cols (x_t x))));
-    [discriminate|].
-  destruct (first_err (column_def_ok (x_t x)) (t_cols (x_t x))); [|discriminate].
-  destruct (effective_pk x) as [pk|]; [|discriminate].
-  match type of H with match ?P with _ => _ end = _ => destruct P; [|discriminate] end.
-  destruct (first_err (fk_def_ok (x_t x)) (t_fks (x_t x))); [|discriminate].
-  destruct (first_err check_def_ok (t_checks (x_t x))); [|discriminate].
-  match type of H with (if ?P then _ else _) = _ => destruct P; [discriminate|] end.
   inversion H. eexists. repeat split; reflexivity.
 Qed.
 
@@ -591,7 +609,7 @@ Qed.
 
 Lemma create_index_names d t i d1 : names_ok d -> create_index d t i = Ok d1 -> names_ok d1.
 Proof.
-  intros ND H. destruct (create_index_facts _ _ _ _ H) as (ct & Hf & _ & _ & Hu & _ & _ & _ & ->).
+  intros ND H. destruct (create_index_facts _ _ _ _ H) as (ct & Hf & _ & Hu & _ & ->).
   destruct (find_ct_split _ _ _ Hf) as (l1 & l2 & El & Hct & Hl1).
   unfold names_ok in *. cbn [db_tables set_tables]. rewrite El in *.
   rewrite (update_ct_split _ _ _ _ _ Hct Hl1).
@@ -642,19 +660,22 @@ Qed.
 
 Lemma arm_step pc d dm am :
   db_wf d = true -> names_ok d ->
-  ((additive pc = true /\ stmt_wf (pc_cmd pc) = true) \/
+  ((additive pc = true /\ stmt_wf (pc_cmd pc) = true /\
+    forall dm, exec d (pc_cmd pc) = Ok dm ->
+      match pc_cmd pc with SCreateTable x _ => droppable dm (t_name (x_t x)) = true | _ => True end) \/
    (exists n t i, drop_index_arm pc = Some (n, t, i) /\ faithful_idx d n t i)) ->
   exec d (pc_cmd pc) = Ok dm -> sim dm am ->
   (exists a, exec_all am (pc_reverse pc) = Ok a /\ sim d a) /\ db_wf dm = true /\ names_ok dm.
 Proof.
-  intros W ND [[A SW]|(n & t & i & Harm & Hfa)] E S.
-  - destruct (additive_step _ _ _ A SW W E) as [Hrev Wm]. split; [|split; [exact Wm|]].
+  intros W ND [(A & SW & DR0)|(n & t & i & Harm & Hfa)] E S.
+  - pose proof (DR0 dm E) as DR.
+    destruct (additive_step _ _ _ A SW W E DR) as [Hrev Wm]. split; [|split; [exact Wm|]].
     + unfold additive in A.
       destruct (pc_cmd pc) as [x us|n|a b|t c ai|t c|t a b|t i|n|tt tc ft fe|on] eqn:Ec; try discriminate.
       * destruct us; [|discriminate].
         destruct (pc_reverse pc) as [|[| n | | | | | | | |] [|]] eqn:Er; try discriminate.
         apply str_eqb_eq in A. subst n. simpl in E.
-        destruct (create_drop_table_sim _ _ _ _ E S) as (a & Ha & Sa).
+        destruct (create_drop_table_sim _ _ _ _ E DR S) as (a & Ha & Sa).
         exists a. simpl. now rewrite Ha.
       * destruct (pc_reverse pc) as [|[| | | | t' n | | | | |] [|]] eqn:Er; try discriminate.
         simpl in Hrev. destruct (drop_column dm t' n) as [d'|] eqn:Ed; [|discriminate].
@@ -686,12 +707,208 @@ Proof.
   induction l as [|pc l IH]; intros d d1 W ND AO E.
   - simpl in E. inversion E; subst d1. exists d. split; [reflexivity|apply sim_refl].
   - simpl in E. destruct AO as [Harm Hnext].
-    destruct (exec d (pc_cmd pc)) as [dm|] eqn:Em; [|discriminate].
+    remember (exec d (pc_cmd pc)) as r eqn:Em in E. destruct r as [dm|]; [|discriminate]. symmetry in Em.
     (* the invariants of [dm] do not depend on the state the reverse runs on *)
     destruct (arm_step pc d dm dm W ND Harm Em (sim_refl dm)) as (_ & Wm & NDm).
-    destruct (IH dm d1 Wm NDm (Hnext dm eq_refl) E) as (am & Ham & Sm).
+    destruct (IH dm d1 Wm NDm (Hnext dm Em) E) as (am & Ham & Sm).
     destruct (arm_step pc d dm am W ND Harm Em Sm) as ((a & Ha & Sa) & _ & _).
     exists a. split; [|exact Sa].
     unfold down_stmts. simpl. rewrite flat_map_app. simpl. rewrite app_nil_r.
     rewrite exec_all_app. fold (down_stmts l). now rewrite Ham.
+Qed.
+
+(** * [sim] states inspect alike: the same tables, their indexes permuted *)
+
+Lemma unique_autoindexes_name t t' : t_name t = t_name t' ->
+  forall us k seen, unique_autoindexes t k seen us = unique_autoindexes t' k seen us.
+Proof.
+  intros E. induction us as [|u us IH]; intros k seen; simpl; [reflexivity|].
+  destruct (existsb (strs_eqb u) seen); [apply IH|]. rewrite E. f_equal. apply IH.
+Qed.
+
+Lemma inspect_table_with c l :
+  x_t (inspect_table (with_idx c l)) =
+  set_t_idx (x_t (inspect_table c))
+    (unique_autoindexes (ct_t c) (first_unique_no (ct_t c))
+       (match t_pk (ct_t c) with
+        | Some pk => match part_col_names (i_parts pk) with Some l0 => [l0] | None => [] end
+        | None => []
+        end) (ct_uniques c) ++ map inspect_index l).
+Proof.
+  destruct c as [[t a] u r]. destruct t as [tn wr st cols pk idx fks chk].
+  unfold inspect_table, inspect_indexes, with_idx, set_ct_t, ct_t, ct_x, set_x_t, x_t, ct_uniques, set_t_idx.
+  simpl. f_equal. f_equal. apply unique_autoindexes_name. reflexivity.
+Qed.
+
+Lemma ct_sim_table_perm c c' :
+  ct_sim c c' -> table_perm (x_t (inspect_table c)) (x_t (inspect_table c')).
+Proof.
+  intros S. pose proof (ct_sim_inv _ _ S) as E. destruct S as [_ P].
+  rewrite <- (with_idx_self c) at 1. rewrite E. rewrite !inspect_table_with.
+  unfold table_perm. simpl. repeat split; try apply Permutation_refl.
+  now apply Permutation_app_head.
+Qed.
+
+Lemma sim_schema_perm name d a :
+  sim d a -> schema_perm (inspect_schema name d) (inspect_schema name a).
+Proof.
+  intros (_ & _ & F). split; [reflexivity|].
+  exists (s_tables (inspect_schema name a)). split; [|apply Permutation_refl].
+  unfold inspect_schema, schema_of, inspect. simpl. rewrite !map_map.
+  induction F as [|c c' l l' S F IH]; simpl; constructor; [now apply ct_sim_table_perm|exact IH].
+Qed.
+
+(** hence no difference for the differ, on well-formed inspections (C02_perm_empty) *)
+Lemma sim_diff_empty name skip d a :
+  sim d a ->
+  wf_schema sqlite_dwf (inspect_schema name d) ->
+  SchemaDiff sqlite_driver skip (inspect_schema name d) (inspect_schema name a) = Some [].
+Proof.
+  intros S WF.
+  exact (schema_diff_perm sqlite_driver skip sqlite_dwf DiffSqliteProofs.sqlite_refl_laws
+           DiffSqliteProofs.sqlite_sim_laws _ _ WF (sim_schema_perm name d a S)).
+Qed.
+
+(** * the planner: a reversible plan without DropTable consists of additive and drop-index arms *)
+
+Definition is_drop_idx (pc : pchange) : bool :=
+  match drop_index_arm pc with Some _ => true | None => false end.
+Definition good2 (pc : pchange) : bool := good pc || is_drop_idx pc.
+Definition okc2 (pc : pchange) : bool := good2 pc || negb (pc_has_reverse pc).
+
+Lemma good_good2 l : forallb good l = true -> forallb good2 l = true.
+Proof. apply forallb_impl. intros pc H. unfold good2. now rewrite H. Qed.
+Lemma good2_okc2 l : forallb good2 l = true -> forallb okc2 l = true.
+Proof. apply forallb_impl. intros pc H. unfold okc2. now rewrite H. Qed.
+
+Lemma dropIndexes_good2 t l r : dropIndexes t l = Some r -> forallb good2 r = true.
+Proof.
+  unfold dropIndexes. destruct (addIndexes t l) as [rs|] eqn:E; [|discriminate].
+  intros H; inversion H; subst r; clear H. revert rs E.
+  induction l as [|i l IH]; simpl; intros rs E.
+  - inversion E; reflexivity.
+  - destruct (normalize_idx_name i t) as [i'|]; [|discriminate].
+    destruct (addIndexes t l) as [r'|]; [|discriminate]. inversion E; subst rs. simpl.
+    rewrite (IH r' eq_refl), andb_true_r. unfold good2, is_drop_idx, drop_index_arm.
+    cbn [pc_cmd pc_reverse]. rewrite str_eqb_refl. apply orb_true_r.
+Qed.
+
+Lemma alterTable_good2 from tox cs : forall r,
+  alterTable from tox cs = Some r -> forallb good2 r = true.
+Proof.
+  induction cs as [|c cs IH]; intros r H; simpl in H.
+  - inversion H; reflexivity.
+  - match type of H with match ?here with _ => _ end = _ => destruct here as [a|] eqn:Eh; [|discriminate] end.
+    destruct (alterTable from tox cs) as [b|] eqn:Eb; [|discriminate].
+    inversion H; subst r. rewrite forallb_app, (IH b eq_refl), andb_true_r.
+    destruct c; try discriminate.
+    + destruct (find_col c (t_cols (x_t tox))) as [col|] eqn:Ec; [|discriminate].
+      destruct (column_ok tox col); [|discriminate]. inversion Eh; subst a. simpl.
+      unfold good2, good, additive. simpl.
+      rewrite str_eqb_refl, (find_col_name _ _ _ Ec), str_eqb_refl. reflexivity.
+    + destruct (find_idx n (t_idx (x_t tox))) as [[k i]|]; [|discriminate].
+      exact (good_good2 _ (addIndexes_good (x_t tox) [i] a Eh)).
+    + destruct (find_idx n (t_idx from)) as [[k i]|]; [|discriminate].
+      exact (dropIndexes_good2 (x_t tox) [i] a Eh).
+Qed.
+
+Lemma modifyTable_ok2 from tox cs r sk :
+  x_wf tox = true -> modifyTable from tox cs = Some (r, sk) ->
+  forallb okc2 r = true /\ (sk = true -> forallb pc_has_reverse r = false).
+Proof.
+  unfold modifyTable. intros W H.
+  destruct (alterable (x_t tox) cs).
+  - destruct (alterTable from tox cs) as [r'|] eqn:E; [|discriminate]. inversion H; subst r sk.
+    split; [apply good2_okc2; exact (alterTable_good2 _ _ _ _ E)|discriminate].
+  - match type of H with match addTable ?X with _ => _ end = _ => destruct (addTable X) as [created|] eqn:Ea; [|discriminate] end.
+    match type of H with match copyRows ?A ?B ?C with _ => _ end = _ => destruct (copyRows A B C) as [ins|] eqn:Ei; [|discriminate] end.
+    destruct (addIndexes (x_t tox) (t_idx (x_t tox))) as [idxs|] eqn:Ex; [|discriminate].
+    inversion H; subst r sk. clear H.
+    assert (Gc : forallb good created = true).
+    { refine (addTable_good _ _ _ Ea). rewrite x_wf_same_cols by reflexivity. exact W. }
+    assert (Oi : forallb okc2 (match ins with Some i => [i] | None => [] end) = true).
+    { destruct ins as [i|]; [|reflexivity]. unfold copyRows in Ei.
+      destruct (copy_cols _ cs) as [[|pr prs]|]; try discriminate; inversion Ei; reflexivity. }
+    split.
+    + rewrite forallb_app, (good2_okc2 _ (good_good2 _ Gc)). rewrite forallb_app, Oi. simpl.
+      exact (good2_okc2 _ (good_good2 _ (addIndexes_good _ _ _ Ex))).
+    + intros _. rewrite forallb_has_reverse_app. rewrite forallb_has_reverse_app. simpl.
+      now rewrite !andb_false_r.
+Qed.
+
+Definition ps_inv2 (s : pstate) : Prop :=
+  forallb okc2 (ps_changes s) = true /\
+  (ps_skipFKs s = true -> forallb pc_has_reverse (ps_changes s) = false).
+
+Lemma plan_loop_inv2 from to cs : forall s s',
+  xschema_wf to = true -> no_drop_table cs = true -> ps_inv2 s ->
+  plan_loop from to cs s = Some s' -> ps_inv2 s'.
+Proof.
+  induction cs as [|c cs IH]; intros s s' XW ND I H; simpl in H.
+  - inversion H; subst; exact I.
+  - simpl in ND. apply andb_true_iff in ND as [N1 N2].
+    match type of H with match ?nx with _ => _ end = _ => destruct nx as [sm|] eqn:En; [|discriminate] end.
+    apply (IH sm s' XW N2); [|exact H]. clear H IH.
+    destruct I as [I1 I2]. destruct c as [n|n|n sub]; [| discriminate |].
+    + destruct (find_xtable n to) as [x|] eqn:Ef; [|discriminate].
+      destruct (addTable x) as [r|] eqn:Ea; [|discriminate]. inversion En; subst sm.
+      assert (Wx : x_wf x = true).
+      { unfold xschema_wf in XW. rewrite forallb_forall in XW. exact (XW x (find_xtable_in _ _ _ Ef)). }
+      split; simpl.
+      * rewrite forallb_app, I1. exact (good2_okc2 _ (good_good2 _ (addTable_good _ _ Wx Ea))).
+      * intros Hs. rewrite forallb_has_reverse_app, (I2 Hs). reflexivity.
+    + destruct (find_xtable n from) as [xf|]; [|discriminate].
+      destruct (find_xtable n to) as [xt|] eqn:Ef; [|discriminate].
+      destruct (normalized_to xt) as [xt'|] eqn:Enorm; [|discriminate].
+      destruct (modifyTable (x_t xf) xt' sub) as [[r sk]|] eqn:Em; [|discriminate].
+      assert (Wx : x_wf xt' = true).
+      { rewrite (normalized_to_wf _ _ Enorm). unfold xschema_wf in XW. rewrite forallb_forall in XW.
+        exact (XW xt (find_xtable_in _ _ _ Ef)). }
+      destruct (modifyTable_ok2 _ _ _ _ _ Wx Em) as [O1 O2].
+      inversion En; subst sm. destruct sk; split; simpl.
+      * now rewrite forallb_app, I1, O1.
+      * intros _. rewrite forallb_has_reverse_app, (O2 eq_refl). now rewrite andb_false_r.
+      * now rewrite forallb_app, I1, O1.
+      * intros Hs. rewrite forallb_has_reverse_app, (I2 Hs). reflexivity.
+Qed.
+
+Lemma plan_arms from to cs p :
+  xschema_wf to = true -> no_drop_table cs = true ->
+  PlanChanges from to cs = Some p -> p_reversible p = true ->
+  forallb good2 (p_changes p) = true.
+Proof.
+  unfold PlanChanges. intros XW ND H R.
+  destruct (plan_loop from to cs (mkPS [] false)) as [s|] eqn:El; [|discriminate].
+  assert (I : ps_inv2 s).
+  { refine (plan_loop_inv2 _ _ _ (mkPS [] false) s XW ND _ El). split; [reflexivity|discriminate]. }
+  destruct I as [I1 I2]. inversion H; subst p; clear H. simpl in R. rewrite set_reversible_spec in R.
+  destruct (ps_skipFKs s); [rewrite (I2 eq_refl) in R; discriminate|]. simpl.
+  clear -I1 R. induction (ps_changes s) as [|pc l IH]; simpl in *; [reflexivity|].
+  apply andb_true_iff in I1 as [O1 O2]. apply andb_true_iff in R as [R1 R2].
+  rewrite (IH R2 O2), andb_true_r. unfold okc2 in O1. rewrite R1 in O1. simpl in O1.
+  now rewrite orb_false_r in O1.
+Qed.
+
+Lemma conds_arms_ok l : forall d, forallb good2 l = true -> conds d l -> arms_ok d l.
+Proof.
+  induction l as [|pc l IH]; intros d G C; simpl; [exact I|].
+  simpl in G. apply andb_true_iff in G as [G1 G2]. destruct C as [C1 C2]. split.
+  - unfold good2 in G1. apply orb_true_iff in G1 as [Hg|Hd].
+    + left. unfold good in Hg. apply andb_true_iff in Hg as [A S]. repeat split; try assumption.
+      intros dm E. exact (proj1 (C2 dm E)).
+    + right. unfold is_drop_idx in Hd. destruct (drop_index_arm pc) as [[[n t] i]|]; [|discriminate].
+      exists n, t, i. split; [reflexivity|exact C1].
+  - intros dm E. apply IH; [exact G2|exact (proj2 (C2 dm E))].
+Qed.
+
+(** C17 item 1 for the plans without DropTable: restored up to [sim]. *)
+Theorem reversible_sound_no_drop_table from to cs p d d1 :
+  db_wf d = true -> names_ok d -> xschema_wf to = true -> no_drop_table cs = true ->
+  PlanChanges from to cs = Some p -> p_reversible p = true ->
+  conds d (p_changes p) ->
+  exec_all d (up_stmts (p_changes p)) = Ok d1 ->
+  exists d2, exec_all d1 (down_stmts (p_changes p)) = Ok d2 /\ sim d d2.
+Proof.
+  intros W ND XW NT HP R C E.
+  exact (arms_sound _ _ _ W ND (conds_arms_ok _ _ (plan_arms _ _ _ _ XW NT HP R) C) E).
 Qed.
